@@ -1,6 +1,7 @@
 package exif2
 
 import (
+	"bufio"
 	"io"
 
 	"github.com/evanoberholster/imagemeta/exif2/ifds"
@@ -300,14 +301,19 @@ func (ir *ifdReader) fastRead(n int) (buf []byte, err error) {
 		ir.po += uint32(n)
 		return
 	}
-	if n, err = ir.reader.Read(ir.buffer.buf[:n]); err != nil {
+	if n < 0 || n > len(ir.buffer.buf) {
+		return nil, bufio.ErrBufferFull
+	}
+	// a Reader may return fewer bytes than asked for; read until the value is complete
+	n, err = io.ReadFull(ir.reader, ir.buffer.buf[:n])
+	ir.po += uint32(n)
+	if err != nil {
 		if ir.logLevelError() {
 			ir.logError(err).Msg("Read error")
 		}
-		return
+		return nil, err
 	}
-	ir.po += uint32(n)
-	return ir.buffer.buf[:n], err
+	return ir.buffer.buf[:n], nil
 }
 
 // ReadUint16 reads a uint16 from an ifdReader.
